@@ -544,8 +544,31 @@ def target_version_cases(prog, an, rep):
             if isinstance(x, ast.BinOp) and isinstance(x.op, ast.Add) and \
                     src(x.left).endswith('[DevelopmentBranch].micro'):
                 off.append(x.right)
-    rep.check(len(off) == 1 and ' '.join(src(off[0]).split()) ==
-              '2 if %s[DevelopmentBranch].has_stabilization else 1' % holder,
+    def is_offset(e):
+        hs = '%s[DevelopmentBranch].has_stabilization' % holder
+        if isinstance(e, ast.IfExp):
+            return canon(f, e.test) == hs and is_const(e.body, 2) and \
+                is_const(e.orelse, 1)
+        if isinstance(e, ast.Name):
+            # if <dev>.has_stabilization: off = 2  else: off = 1
+            for n in walk_local(f.node, include_root=False):
+                if isinstance(n, ast.If) and canon(f, n.test) == hs and \
+                        len(n.body) == 1 and len(n.orelse) == 1 and all(
+                            isinstance(b[0], ast.Assign) and
+                            src(b[0].targets[0]) == e.id
+                            for b in (n.body, n.orelse)) and \
+                        is_const(n.body[0].value, 2) and \
+                        is_const(n.orelse[0].value, 1) and \
+                        len(stores_to(f, e.id)) == 2:
+                    return True
+        return False
+    off = []
+    for n in dev_apps:
+        for x in ast.walk(n.ast.value):
+            if isinstance(x, ast.BinOp) and isinstance(x.op, ast.Add) and \
+                    canon(f, x.left).endswith('[DevelopmentBranch].micro'):
+                off.append(x.right)
+    rep.check(len(off) == 1 and is_offset(off[0]),
               'C09.DEP.fix-version-cases', f.qname + ': the patch held by an '
               'untargeted stabilization branch is skipped', f.where(),
               'offset is %s' % [src(v) for v in off])
